@@ -35,7 +35,8 @@ use cwe_checker_lib::intermediate_representation::{Bitvector, ByteSize, Tid, Var
 use std::collections::BTreeMap;
 use std::fmt::Debug;
 
-const SIZES: [usize; 4] = [1, 2, 4, 8];
+// 16: cells wider than the address size of the region (vector register values on the stack)
+const SIZES: [usize; 5] = [1, 2, 4, 8, 16];
 const MAX_OPS: usize = 40;
 const OFF_LO: i64 = -24;
 const OFF_HI: i64 = 24;
@@ -65,6 +66,7 @@ fn bvu(v: u64, size: usize) -> Bitvector {
         1 => Bitvector::from_u8(v as u8),
         2 => Bitvector::from_u16(v as u16),
         4 => Bitvector::from_u32(v as u32),
+        16 => Bitvector::from_u64(v).into_zero_extend(128).unwrap(),
         _ => Bitvector::from_u64(v),
     }
 }
